@@ -20,7 +20,7 @@ SHARDS = {"quick": 4, "thorough": 16}
 TIMEOUT = {"quick": 900, "thorough": 3400}
 OP = "carry_body"
 RULE = (
-    "generated user-style functions/methods with bodies from a grammar (assignments, calls with keyword arguments named "
+    "return prose that announces a default different from the returned expression; generated user-style functions/methods with bodies from a grammar (assignments, calls with keyword arguments named "
     "like parameters, loops, conditionals with early returns, try/finally, nested functions and lambdas shadowing "
     "parameter names, comprehensions) parsed and re-emitted to the same kind and name; argparse functions with extra "
     "statements; and the same bodies re-homed into a class __call__; one evaluation = one parse+emit with statement-wise "
